@@ -1050,6 +1050,58 @@ def s_np_max_initial():
 def s_split_empty():
     return [p.tolist() for p in np.split(np.array([], dtype=int), np.array([], dtype=int))], [p.tolist() for p in np.split(np.array([1, 2]), [1])]
 
+def s_c20_conversion_idiom():
+    out = []
+    for ranking in (np.array([-1, -1, -1]), np.array([1, -1, 0]), np.array([0, 0, 1])):
+        order = np.argsort(ranking, kind="stable")
+        ranked = order[np.searchsorted(ranking[order], 0):]
+        starts = np.flatnonzero(np.diff(ranking[ranked])) + 1
+        out.append([[int(e) for e in bucket] for bucket in np.split(ranked, starts)])
+    return out
+
+def s_count_nonzero_axis():
+    m = np.array([[1, 0, 2], [0, 0, 3]])
+    return np.count_nonzero(m, axis=1), np.count_nonzero(m, axis=0), int(np.count_nonzero(m)), np.count_nonzero(m == 0, axis=1)
+
+def s_empty_array_ops():
+    e = np.array([], dtype=int)
+    return e[0:], np.diff(e), np.flatnonzero(np.diff(e)) + 1, e.sum(), int(np.searchsorted(e, 0)), np.argsort(e), e[np.array([], dtype=int)]
+
+def s_list_slice_assign():
+    a = [1, 2, 3, 4]
+    a[1:2] = [7, 8, 9]
+    b = [1, 2, 3]
+    b[0:1] = []
+    c = [1, 2, 3]
+    c[1:1] = [5]
+    d = [1, 2, 3, 4]
+    d[::2] = [0, 0]
+    e = [1, 2]
+    e[5:] = [3]
+    return a, b, c, d, e
+
+def s_list_slice_assign_bad():
+    d = [1, 2, 3, 4]
+    d[::2] = [0]
+
+def s_del_slice():
+    a = [1, 2, 3, 4]
+    del a[1:3]
+    return a
+
+def s_where_broadcast():
+    col = np.array([0, -1, 2])[:, np.newaxis]
+    row = np.array([0, -1, 2])[np.newaxis, :]
+    m1, m2 = col == -1, row == -1
+    case_non_ranked = m1 + (m1 & m2)
+    case_both = (col > row) + 2 * (col == row)
+    return np.where(np.logical_or(m1, m2), 3 + case_non_ranked, case_both), np.where(m1, 1, row), np.where(col > 0, col, 0)
+
+def s_lookup_by_matrix():
+    table = np.array([10.0, 20.0, 30.0])
+    idx = np.array([[0, 2], [1, 1]])
+    return table[idx], 2.0 * table[idx]
+
 def s_round_half_array():
     return [round(x) for x in (0.5, 1.5, -0.5)], int(0.5 + 0.5), int(-0.5 - 0.5)
 '''
